@@ -23,6 +23,29 @@ use self::server::Server;
 
 pub mod server;
 
+/// Verification hooks (compiled only with `--cfg iwe_org_iwe_verif`): a global callback invoked at
+/// the points where a request worker or the message loop touches the shared server. The callback
+/// may block; that is how a test harness chooses an interleaving.
+#[cfg(iwe_org_iwe_verif)]
+pub mod verif {
+    use std::sync::{Arc, RwLock};
+
+    pub type Hook = Arc<dyn Fn(&str, &str) + Send + Sync>;
+
+    static HOOK: RwLock<Option<Hook>> = RwLock::new(None);
+
+    pub fn set_hook(hook: Option<Hook>) {
+        *HOOK.write().unwrap() = hook;
+    }
+
+    pub fn event(point: &str, id: &str) {
+        let hook = HOOK.read().unwrap().clone();
+        if let Some(hook) = hook {
+            hook(point, id);
+        }
+    }
+}
+
 #[derive(Debug, PartialEq, Clone, Copy)]
 pub enum LspClient {
     Unknown,
@@ -90,6 +113,8 @@ impl Router {
                         "Panic occurred with unknown cause".to_string()
                     };
                     error!("Panic message: {}", error_message);
+                    #[cfg(iwe_org_iwe_verif)]
+                    verif::event("message-panicked", &error_message);
                     false
                 });
 
@@ -105,7 +130,16 @@ impl Router {
             Message::Request(req) => {
                 let request = req;
                 let self_clone = self.clone();
+                #[cfg(not(iwe_org_iwe_verif))]
                 let _ = std::thread::spawn(move || self_clone.on_request(request));
+                #[cfg(iwe_org_iwe_verif)]
+                let _ = std::thread::spawn(move || {
+                    let verif_id = format!("{}", request.id);
+                    verif::event("worker-started", &verif_id);
+                    let result = self_clone.on_request(request);
+                    verif::event("worker-finishing", &verif_id);
+                    result
+                });
                 false
             }
             Message::Notification(notification) => self.on_notification(notification),
@@ -124,12 +158,16 @@ impl Router {
                 Arc::get_mut(&mut self.server)
                     .unwrap()
                     .handle_did_change_text_document(params);
+                #[cfg(iwe_org_iwe_verif)]
+                verif::event("notification-applied", "didChange");
             }
             "textDocument/didSave" => {
                 let params = DidSaveTextDocumentParams::deserialize(notification.params).unwrap();
                 Arc::get_mut(&mut self.server)
                     .unwrap()
                     .handle_did_save_text_document(params);
+                #[cfg(iwe_org_iwe_verif)]
+                verif::event("notification-applied", "didSave");
             }
             default => {
                 debug!("unhandled request: {}", default)
@@ -213,6 +251,9 @@ impl Router {
 
         // schedule update
 
+        #[cfg(iwe_org_iwe_verif)]
+        verif::event("result-computed", &format!("{}", request.id));
+
         match response {
             Ok(value) => self.respond(Response {
                 id: request.id,
@@ -225,6 +266,9 @@ impl Router {
                 "error handling request".to_string(),
             )),
         }
+
+        #[cfg(iwe_org_iwe_verif)]
+        verif::event("response-sent", "");
 
         false
     }
